@@ -64,6 +64,12 @@ func validateTrace(r *ev.Run, module, cfg string, recs []interface{}, timeout ti
 		return nil, false
 	}
 	r.AddTLC(cfg+"(trace)", res.Generated, res.Distinct)
+	if st := res.Printed("TRACE-STATS"); len(st) > 0 {
+		var v interface{}
+		if json.Unmarshal([]byte(st[len(st)-1]), &v) == nil {
+			r.Set("reference_decisions_"+module, v)
+		}
+	}
 	m := traceResRe.FindStringSubmatch(res.Output)
 	if m == nil || res.ExitCode != 0 {
 		r.Inconclusive(fmt.Sprintf("trace validation %s did not finish: %s\n%s", cfg, res.Describe(), res.Tail(15)))
